@@ -92,6 +92,8 @@ var valuePairs = [][2][]int64{
 	{{1, -2}, {-1, 2}}, // cancel when the stacks are the same
 	{{0, 0}, {5, 0}},   // an all-zero input stack
 	{{-1, 0}, {1, 7}},  // cancel in one type only
+	{{3, -3}, {5, 0}},  // a vector whose types cancel each other is not an empty one
+	{{5, 0}, {0, -5}},  // ... nor is a sum of that kind
 }
 
 // value vectors for triples of stacks
